@@ -60,7 +60,7 @@ inductive Blk where
   | lit (s : Text)
   | var (src : Src) (hq : Bool) (missing : Option Text) (null : Option Text)
   | cond (conds : List (Src × List Blk)) (els : Option (List Blk))
-  | unless (src : Src) (body : List Blk)
+  | unless_ (src : Src) (body : List Blk)
   | call (src : Src)
   | in_ (src : Src) (o : InOpts) (body : List Blk) (els : Option (List Blk))
   | with_ (src : Src) (mapping : Bool) (only : Bool) (body : List Blk)
@@ -113,8 +113,8 @@ structure Env where
   /-- security guard installed? and the (object, attribute) pairs it refuses -/
   guardOn : Bool := false
   denied : List (Nat × Text) := []
-  /-- fault injection: the k-th invocation of any callable (0-based) raises this / returns -/
-  faultAt : Option Nat := none
+  /-- fault injection: the k-th invocations of any callable (0-based, counted over the whole call) raise -/
+  faults : List Nat := []
   faultExc : Exc := ⟨"ValueError".toList, "fault".toList⟩
   /-- template encoding is UTF-8? (else Latin-1); bytes are decoded with it when pieces are joined -/
   utf8 : Bool := true
@@ -442,7 +442,34 @@ def invoke (env : Env) (id : Nat) (result : Val) (st : St) : Res Val × St :=
     (.ok .none, { st with trace := st.trace ++ [.snap (st.stack.map frameSummary) st.level] })
   else
     let st' := { st with trace := st.trace ++ [.call id], calls := st.calls + 1 }
-    if env.faultAt = some st.calls then (.raise env.faultExc, st') else (.ok result, st')
+    if env.faults.contains st.calls then (.raise env.faultExc, st') else (.ok result, st')
+
+/-- join the pieces a body produced into what the tag returns; other outcomes pass through -/
+def joinRes (env : Env) (r : Res (List Piece)) (st : St) : Res Piece × St :=
+  match r with
+  | .ok ps =>
+    (match joinPieces env ps with
+     | .ok p => (.ok p, st)
+     | .raise e => (.raise e, st)
+     | _ => (.oom, st))
+  | .raise e => (.raise e, st)
+  | .ret v => (.ret v, st)
+  | .oom => (.oom, st)
+
+/-- a tag's result as the list of pieces it contributes (empty results are not appended) -/
+def oneRes (r : Res Piece × St) : Res (List Piece) × St :=
+  match r with
+  | (.ok p, st) => (.ok (if pieceEmpty p then [] else [p]), st)
+  | (.raise e, st) => (.raise e, st)
+  | (.ret v, st) => (.ret v, st)
+  | (.oom, st) => (.oom, st)
+
+/-- `join_unicode([a, b])` of two results (try/else, try/finally) -/
+def join2 (env : Env) (p q : Piece) (st : St) : Res (List Piece) × St :=
+  match joinUnicode env [p, q] with
+  | .ok j => (.ok (if pieceEmpty j then [] else [j]), st)
+  | .raise e => (.raise e, st)
+  | _ => (.oom, st)
 
 mutual
 
@@ -574,15 +601,15 @@ def withFrame (env : Env) : Nat → Frame → List Blk → St → Res (List Piec
 def renderJoined (env : Env) : Nat → List Blk → St → Res Piece × St
   | 0, _, st => (.oom, st)
   | fuel + 1, body, st =>
-    match renderBlocks env fuel body st with
-    | (.ok ps, st') =>
-      (match joinPieces env ps with
-       | .ok p => (.ok p, st')
-       | .raise e => (.raise e, st')
-       | _ => (.oom, st'))
-    | (.raise e, st') => (.raise e, st')
-    | (.ret v, st') => (.ret v, st')
-    | (.oom, st') => (.oom, st')
+    let (r, st') := renderBlocks env fuel body st
+    joinRes env r st'
+
+/-- a body rendered inside one more frame, joined -/
+def framed (env : Env) : Nat → Frame → List Blk → St → Res Piece × St
+  | 0, _, _, st => (.oom, st)
+  | fuel + 1, f, body, st =>
+    let (r, st') := withFrame env fuel f body st
+    joinRes env r st'
 
 /-- the `'i'` block: conditions in order inside the cache frame (already pushed: top of stack) -/
 def condLoop (env : Env) : Nat → List (Src × List Blk) → Option (List Blk) → St → Res (List Piece) × St
@@ -614,6 +641,19 @@ def condLoop (env : Env) : Nat → List (Src × List Blk) → Option (List Blk) 
        | (.ret v, st') => (.ret v, st')
        | (.oom, st') => (.oom, st'))
 
+/-- one iteration of dtml-in: the item is pushed (unless no_push_item / a string), the body rendered -/
+def inIter (env : Env) : Nat → SeqVars → InOpts → List Blk → Nat → St → Res Piece × St
+  | 0, _, _, _, _, st => (.oom, st)
+  | fuel + 1, sv, o, body, i, st =>
+    let client := seqItem sv i
+    let isStr := match sv.items[i]? with
+      | some (.str _) => true | some (.bytes _) => true | _ => false
+    if o.noPush then renderJoined env fuel body st
+    else if o.mapping then
+      framed env fuel (match client with | .dict kvs => Frame.dict kvs | _ => Frame.bad) body st
+    else if isStr then renderJoined env fuel body st
+    else framed env fuel (.inst client []) body st
+
 /-- the iterations of an unbatched dtml-in (renderwob), items `i ..` -/
 def inLoop (env : Env) : Nat → SeqVars → InOpts → List Blk → Nat → St → Res (List Piece) × St
   | 0, _, _, _, _, st => (.oom, st)
@@ -625,28 +665,7 @@ def inLoop (env : Env) : Nat → SeqVars → InOpts → List Blk → Nat → St 
       let st1 := match st.stack with
         | .seq _ :: fs => { st with stack := .seq sv' :: fs }
         | _ => st
-      let client := seqItem sv' i
-      let isStr := match sv.items[i]? with
-        | some (.str _) => true | some (.bytes _) => true | _ => false
-      let r :=
-        if o.noPush then renderJoined env fuel body st1
-        else if o.mapping then
-          let fr : Frame := match client with
-            | .dict kvs => .dict kvs
-            | _ => .bad
-          let (r, st') := withFrame env fuel fr body st1
-          (match r with
-           | .ok ps => (match joinPieces env ps with
-               | .ok p => (.ok p, st') | .raise e => (.raise e, st') | _ => (.oom, st'))
-           | .raise e => (.raise e, st') | .ret v => (.ret v, st') | .oom => (.oom, st'))
-        else if isStr then renderJoined env fuel body st1
-        else
-          let (r, st') := withFrame env fuel (.inst client []) body st1
-          (match r with
-           | .ok ps => (match joinPieces env ps with
-               | .ok p => (.ok p, st') | .raise e => (.raise e, st') | _ => (.oom, st'))
-           | .raise e => (.raise e, st') | .ret v => (.ret v, st') | .oom => (.oom, st'))
-      match r with
+      match inIter env fuel sv' o body i st1 with
       | (.ok p, st2) =>
         (match inLoop env fuel sv' o body (i + 1) st2 with
          | (.ok ps, st3) => (.ok (p :: ps), st3)
@@ -654,6 +673,18 @@ def inLoop (env : Env) : Nat → SeqVars → InOpts → List Blk → Nat → St 
       | (.raise e, st2) => (.raise e, st2)
       | (.ret v, st2) => (.ret v, st2)
       | (.oom, st2) => (.oom, st2)
+
+/-- the class a dtml-raise raises: by name (unknown names give RuntimeError), or by expression -/
+def raiseClass (env : Env) : Nat → Text → Option Expr → St → Text × St
+  | 0, _, _, st => ("RuntimeError".toList, st)
+  | fuel + 1, cls, clsExpr, st =>
+    match clsExpr with
+    | none => (if (env.classes.lookup cls).isSome then cls else "RuntimeError".toList, st)
+    | some e =>
+      (match evalExpr env fuel e st with
+       | (.ok (.exc c _), st') => (c, st')
+       | (.ok (.str c), st') => (c, st')
+       | (_, st') => ("InvalidErrorTypeExpression".toList, st'))
 
 def renderBlk (env : Env) : Nat → Blk → St → Res (List Piece) × St
   | 0, _, st => (.oom, st)
@@ -690,7 +721,7 @@ def renderBlk (env : Env) : Nat → Blk → St → Res (List Piece) × St
     | .cond conds els =>
       let (r, st') := condLoop env fuel conds els { st with stack := .dict [] :: st.stack }
       (r, { st' with stack := st'.stack.drop 1 })
-    | .unless src body =>
+    | .unless_ src body =>
       -- ('i', cond, None, body): a true condition renders nothing, otherwise the else part
       let (r, st') := condLoop env fuel [(src, [])] (some body) { st with stack := .dict [] :: st.stack }
       (r, { st' with stack := st'.stack.drop 1 })
@@ -709,21 +740,15 @@ def renderBlk (env : Env) : Nat → Blk → St → Res (List Piece) × St
              | _ => (.raise ⟨"TypeError".toList, []⟩, st'))
           | some [] =>
             (match els with
-             | some e =>
-               (match renderJoined env fuel e st' with
-                | (.ok p, st'') => (.ok (one p), st'')
-                | (.raise x, st'') => (.raise x, st'')
-                | (.ret x, st'') => (.ret x, st'')
-                | (.oom, st'') => (.oom, st''))
+             | some e => oneRes (renderJoined env fuel e st')
              | none => (.ok [], st'))
           | some xs =>
             let sv : SeqVars := { items := xs, mapping := o.mapping, prefix_ := o.prefix_ }
             let cache : List Frame := match src with
               | .name n => [Frame.dict [(n, v)]]
               | .expr _ => []
-            let st1 := { st' with stack := Frame.seq sv :: cache ++ st'.stack }
-            let (r, st2) := inLoop env fuel sv o body 0 st1
-            let st3 := { st2 with stack := st2.stack.drop (1 + cache.length) }
+            let (r, st2) := inLoop env fuel sv o body 0 { st' with stack := (Frame.seq sv :: cache) ++ st'.stack }
+            let st3 := { st2 with stack := st2.stack.drop (Frame.seq sv :: cache).length }
             (match r with
              | .ok ps =>
                (match joinUnicode env ps with
@@ -739,41 +764,21 @@ def renderBlk (env : Env) : Nat → Blk → St → Res (List Piece) × St
     | .with_ src mapping only body =>
       (match evalSrc env fuel src st with
        | (.ok v, st') =>
-         let fr : Option Frame :=
+         let fr : Frame :=
            if mapping then (match v with
-             | .dict kvs => some (.dict kvs)
-             | _ => some .bad)
-           else
-             let v := match v with
-               | .tuple [x] => x
-               | v => v
-             some (.inst v [])
-         (match fr with
-          | none => (.raise ⟨"TypeError".toList, []⟩, st')
-          | some fr =>
-            if only then
-              -- a fresh TemplateDict holding just this frame; the caller's namespace is untouched
-              let (r, st2) := renderJoined env fuel body { st' with stack := [fr], level := 0 }
-              let st3 := { st2 with stack := st'.stack, level := st'.level }
-              (match r with
-               | .ok p => (.ok (one p), st3)
-               | .raise e => (.raise e, st3)
-               | .ret x => (.ret x, st3)
-               | .oom => (.oom, st3))
-            else
-              let (r, st2) := withFrame env fuel fr body st'
-              (match r with
-               | .ok ps => (match joinPieces env ps with
-                   | .ok p => (.ok (one p), st2) | .raise e => (.raise e, st2) | _ => (.oom, st2))
-               | .raise e => (.raise e, st2)
-               | .ret x => (.ret x, st2)
-               | .oom => (.oom, st2)))
+             | .dict kvs => .dict kvs
+             | _ => .bad)
+           else .inst (match v with | .tuple [x] => x | v => v) []
+         if only then
+           -- a fresh TemplateDict holding just this frame; the caller's namespace is untouched
+           let (r, st2) := renderJoined env fuel body { st' with stack := [fr], level := 0 }
+           oneRes (r, { st2 with stack := st'.stack, level := st'.level })
+         else oneRes (framed env fuel fr body st')
        | (.raise e, st') => (.raise e, st')
        | (.ret v, st') => (.ret v, st')
        | (.oom, st') => (.oom, st'))
     | .let_ binds body =>
-      let st0 := { st with stack := .dict [] :: st.stack }
-      let (r, st1) := letLoop env fuel binds body st0
+      let (r, st1) := letLoop env fuel binds body { st with stack := .dict [] :: st.stack }
       (r, { st1 with stack := st1.stack.drop 1 })
     | .ret src =>
       (match evalSrc env fuel src st with
@@ -782,27 +787,19 @@ def renderBlk (env : Env) : Nat → Blk → St → Res (List Piece) × St
        | (.ret v, st') => (.ret v, st')
        | (.oom, st') => (.oom, st'))
     | .raise_ cls clsExpr body =>
-      -- the class: by name, or by expression (falling back to the name when that fails)
-      let (clsName, st0) : Text × St := match clsExpr with
-        | none => (if (env.classes.lookup cls).isSome then cls else "RuntimeError".toList, st)
-        | some e =>
-          (match evalExpr env fuel e st with
-           | (.ok (.exc c _), st') => (c, st')
-           | (.ok (.str c), st') => (c, st')
-           | (_, st') => ("InvalidErrorTypeExpression".toList, st'))
+      let (clsName, st0) := raiseClass env fuel cls clsExpr st
       (match renderJoined env fuel body st0 with
        | (.ok p, st1) => (.raise ⟨clsName, ustr (valOfPiece p)⟩, st1)
        | (.ret v, st1) => (.ret v, st1)
        | (.raise _, st1) => (.raise ⟨clsName, "Invalid Error Value".toList⟩, st1)
        | (.oom, st1) => (.oom, st1))
     | .tryFin body fin =>
+      -- the finally block is rendered whatever the body did; then the pending outcome continues
       let (r, st1) := renderJoined env fuel body st
       (match renderJoined env fuel fin st1 with
        | (.ok q, st2) =>
          (match r with
-          | .ok p =>
-            (match joinUnicode env [p, q] with
-             | .ok j => (.ok (one j), st2) | .raise e => (.raise e, st2) | _ => (.oom, st2))
+          | .ok p => join2 env p q st2
           | .raise e => (.raise e, st2)
           | .ret v => (.ret v, st2)
           | .oom => (.oom, st2))
@@ -816,9 +813,7 @@ def renderBlk (env : Env) : Nat → Blk → St → Res (List Piece) × St
           | none => (.ok (one p), st1)
           | some e =>
             (match renderJoined env fuel e st1 with
-             | (.ok q, st2) =>
-               (match joinUnicode env [p, q] with
-                | .ok j => (.ok (one j), st2) | .raise x => (.raise x, st2) | _ => (.oom, st2))
+             | (.ok q, st2) => join2 env p q st2
              | (.raise x, st2) => (.raise x, st2)
              | (.ret x, st2) => (.ret x, st2)
              | (.oom, st2) => (.oom, st2)))
@@ -833,23 +828,12 @@ def renderBlk (env : Env) : Nat → Blk → St → Res (List Piece) × St
             let msg := if internal.contains ex.cls then [Char.ofNat 0xFFFF] else ex.msg
             let ns : Val := .obj 0 [("error_type".toList, .str ex.cls), ("error_value".toList, .exc ex.cls msg),
                                    ("error_tb".toList, .str "traceback".toList)]
-            let (r, st2) := withFrame env fuel (.inst ns []) h { st1 with stack := st1.stack }
-            (match r with
-             | .ok ps => (match joinPieces env ps with
-                 | .ok j => (.ok (one j), st2) | .raise x => (.raise x, st2) | _ => (.oom, st2))
-             | .raise x => (.raise x, st2)
-             | .ret x => (.ret x, st2)
-             | .oom => (.oom, st2))))
+            oneRes (framed env fuel (.inst ns []) h st1)))
 
 /-- dtml-let: bindings are evaluated in order into the (already pushed) dictionary, then the body -/
 def letLoop (env : Env) : Nat → List (Text × Src) → List Blk → St → Res (List Piece) × St
   | 0, _, _, st => (.oom, st)
-  | fuel + 1, [], body, st =>
-    (match renderJoined env fuel body st with
-     | (.ok p, st') => (.ok (if pieceEmpty p then [] else [p]), st')
-     | (.raise e, st') => (.raise e, st')
-     | (.ret v, st') => (.ret v, st')
-     | (.oom, st') => (.oom, st'))
+  | fuel + 1, [], body, st => oneRes (renderJoined env fuel body st)
   | fuel + 1, (n, src) :: rest, body, st =>
     match evalSrc env fuel src st with
     | (.ok v, st') =>
